@@ -99,6 +99,13 @@ class AddWatcher(Command):
 
     def validate(self, props):
         super(AddWatcher, self).validate(props)
+        name = props['name']
+        if isinstance(name, str):
+            try:
+                # (events carry the name in their topic, as UTF-8)
+                name.encode('utf8')
+            except UnicodeEncodeError:
+                raise MessageError("'name' is not encodable as UTF-8")
         if 'options' in props:
             options = props.get('options')
             if not isinstance(options, dict):
